@@ -220,6 +220,21 @@ def _null_repr(x):
         return "?"
 
 
+def _rng_state(sp):
+    """the states of the random generators of a space and its sub-spaces as they are now (a generator that was never
+    created stays uncreated: `np_random` would make one).  Wrapping a simulation does not re-seed ITS spaces."""
+    if sp is None:
+        return None
+    g = getattr(sp, "_np_random", None)
+    out = [None if g is None else repr(g.bit_generator.state)]
+    subs = getattr(sp, "spaces", None)
+    if isinstance(subs, dict):
+        out += [_rng_state(x) for x in subs.values()]
+    elif isinstance(subs, (tuple, list)):
+        out += [_rng_state(x) for x in subs]
+    return out
+
+
 def snapshot(sim, copies=True):
     ags = sim.agents
     per = []
@@ -227,6 +242,7 @@ def snapshot(sim, copies=True):
         asp = getattr(a, "action_space", None)
         osp = getattr(a, "observation_space", None)
         per.append({"key": k, "agent": id(a), "cls": type(a).__name__, "id": a.id,
+                    "rng": repr([_rng_state(asp), _rng_state(osp)]),
                     "arepr": repr(asp), "orepr": repr(osp), "aid": id(asp), "oid": id(osp),
                     "acopy": copy.deepcopy(asp) if copies else asp, "ocopy": copy.deepcopy(osp) if copies else osp,
                     "nact": _null_repr(getattr(a, "null_action", None)),
@@ -244,8 +260,10 @@ def snapshot_diff(before, sim):
     if [p["key"] for p in before["per"]] != [p["key"] for p in now["per"]]:
         return "the keys of sim.agents changed"
     for b, n in zip(before["per"], now["per"]):
-        for f in ("agent", "cls", "id", "arepr", "orepr", "aid", "oid", "nact", "nobs", "nactid", "nobsid"):
+        for f in ("agent", "cls", "id", "arepr", "orepr", "aid", "oid", "nact", "nobs", "nactid", "nobsid", "rng"):
             if b[f] != n[f]:
+                if f == "rng":
+                    return f"agent {b['key']}: the random generator of one of its spaces was re-seeded or advanced"
                 return f"agent {b['key']}: {f} changed from {b[f]!r} to {n[f]!r}"
         if not (b["acopy"] == n["acopy"]) or not (b["ocopy"] == n["ocopy"]):
             return f"agent {b['key']}: a space is no longer equal to its copy taken before wrapping"
@@ -603,6 +621,8 @@ def _null_for(rng, sd):
 def gen_stub_sim(rng, floats, max_act_card=4000, kw=False):
     script = gen_script(rng, max_agents=4, max_t=6)
     script["noms"] = []
+    if rng.random() < 0.3:
+        script["seeded"] = True      # agents built with `seed=`, spaces already sampled from (see SpaceStubSim)
     spaces, obs, nulls = [], [], []
     for i in range(script["n"]):
         if not script["learning"][i]:
@@ -827,8 +847,22 @@ def run_actor(desc):
     if sd is None:
         return None
     tape = desc.get("tape", [])
+    sent = {key: k}
+    if desc.get("reuse"):
+        # a history: the caller's action dictionary is an object it uses again - it has just been handed to ANOTHER
+        # wrapped actor of the same make (over a third world) and now goes to the measured one; a wrapper reads the
+        # dictionary it is given, it does not write the decoded action back into it
+        try:
+            wX = gridw.RealWorld(copy.deepcopy(wd))
+            wrX = make_actor(kind, wX, desc)
+            for name in reversed(layers):
+                wrX = AWRAP[name](wrX)
+            with scripted(Tape(tape)):
+                guarded(lambda: wrX.process_action(wX.agent_list[a], sent))
+        except Exception:  # noqa: BLE001
+            pass
     with scripted(Tape(tape)):
-        st, val = guarded(lambda: wrapper.process_action(agW, {key: k}))
+        st, val = guarded(lambda: wrapper.process_action(agW, sent))
     if st != "ok":
         impl = ["err", st]
     else:
@@ -1211,8 +1245,10 @@ class WrapProp(core.Prop):
                 else:
                     ks = sorted(x for x in ({0, 1, n - 1} | {rng.randrange(n) for _ in range(6)}) if 0 <= x < n)
                 for k in ks:
-                    c = self._actor_case(dict(desc, agent=a, k=int(k)))
+                    c = self._actor_case(dict(desc, agent=a, k=int(k), reuse=(int(k) + a) % 3 == 0))
                     if c is not None:
+                        if c.desc.get("reuse"):
+                            c.tags.append("action-dict-reused")
                         yield c
 
     def _excl_cases(self, rng, n_spaces):
